@@ -22,7 +22,13 @@ checks = sys.argv[2:]
 out = '/tmp/refac-%s-out' % tag
 dst = os.path.join(V, 'seeded', 'harmless', tag)
 os.makedirs(dst, exist_ok=True)
+if not os.path.isdir(out):
+    out = dst          # re-run of patches that are already kept
 results = {}
+try:
+    _old = json.load(open(os.path.join(dst, 'results.json'))).get('results', {})
+except Exception:  # noqa
+    _old = {}
 try:
     meta = json.load(open(os.path.join(out, 'meta.json')))
 except Exception as e:  # noqa
@@ -64,12 +70,21 @@ def run_one(pn):
 for pn in ('p1', 'p2', 'p3', 'p4'):
     if not os.path.exists(os.path.join(out, pn + '.diff')):
         continue
-    shutil.copy(os.path.join(out, pn + '.diff'), dst)
+    if out != dst:
+        shutil.copy(os.path.join(out, pn + '.diff'), dst)
     results[pn] = run_one(pn)
-    results[pn]['what'] = (meta.get('patches') or {}).get(pn)
+    # keep the results of checks that were not re-run this time
+    for c, v in (_old.get(pn, {}).get('checks') or {}).items():
+        results[pn].setdefault('checks', {}).setdefault(c, v)
+    results[pn]['what'] = (meta.get('patches') or {}).get(pn) or _old.get(pn, {}).get('what')
 for f in ('equiv.py', 'notes.md'):
-    if os.path.exists(os.path.join(out, f)):
+    if out != dst and os.path.exists(os.path.join(out, f)):
         shutil.copy(os.path.join(out, f), dst)
-json.dump({'tag': tag, 'files': meta.get('files'), 'produced_by': 'independent sub-agent asked for behaviour-preserving refactors (brief: seeded/harmless/REFACTOR.md)',
-           'agent_ran': meta.get('ran'), 'results': results}, open(os.path.join(dst, 'results.json'), 'w'), indent=1)
+try:
+    _prev = json.load(open(os.path.join(dst, 'results.json')))
+except Exception:  # noqa
+    _prev = {}
+json.dump({'tag': tag, 'files': meta.get('files') or _prev.get('files'),
+           'produced_by': 'independent sub-agent asked for behaviour-preserving refactors (brief: seeded/harmless/REFACTOR.md)',
+           'agent_ran': meta.get('ran') or _prev.get('agent_ran'), 'results': results}, open(os.path.join(dst, 'results.json'), 'w'), indent=1)
 print(json.dumps({pn: {c: v['class'] for c, v in (r.get('checks') or {}).items()} for pn, r in results.items()}))
